@@ -36,7 +36,7 @@ Proof.
        reflexivity.
 Qed.
 
-(* = the model's selection for a node with a local zone, with the parameters the C++ text has (window 30 s, strict <) *)
+(* = the model's selection for a node with a local zone, with the constants the C++ text has (window 30 s, strict <) *)
 Lemma src_update_authority_select : src_update_authority_endpoints_recognised = true ->
   forall p members me conn now start, au_p_window p = 30 -> au_p_strict p = true ->
     au_select p (Some members) conn me now start
